@@ -565,11 +565,23 @@ def run_cfg(ctx, p, cfg, release):
                       for cnd in f.conditions(cb_):
                           if cnd[0] not in [x[0] for x in conds]:
                               conds.append(cnd)
+                  conds = sorted(conds, key=lambda x: sum(1 for y in conds if f.dominates(y[0], x[0])))
+                  possible = {}      # scrutinee -> characters it can still be (an earlier `matches!(ch, a | b | ..)` narrowed it)
                   for sb, sw, al in conds:
                     if sw.t.get("discr_ty") == "char":
                         vals = [v for v, _ in al if v != "otherwise"]
+                        key_ = show(deep_strip(sw.discr), 12)
                         if len(vals) == 1 and len(al) == 1:
                             chars.append((sb, chr(vals[0])))
+                            possible[key_] = {vals[0]}
+                        elif vals and len(vals) == len(al):
+                            possible[key_] = set(vals) & possible.get(key_, set(vals))
+                        elif not vals and len(al) == 1 and key_ in possible:
+                            # the catch-all arm of a match on a character already known to be one of a few: the one that is left
+                            rest = possible[key_] - {a["value"] for a in sw.t.get("arms", [])}
+                            if len(rest) == 1:
+                                chars.append((sb, chr(list(rest)[0])))
+                                possible[key_] = rest
                     d = strip(sw.discr)
                     if d[0] == "call" and len(d) > 3 and d[3] in cons_by_block and {sw.label(v) for v, _ in al} == {True}:
                         cc = cons_by_block[d[3]]
